@@ -1986,10 +1986,10 @@ class Color(object):
     def hsl(self, value):
         if not isinstance(value, (tuple, list)):
             return
-        h = value[0]
+        h = Angle.degrees(value[0]).as_turns % 1.0
         s = value[1]
         l = value[2]
-        self.value = Color.hsl_to_int(h, s, l, 1.0)
+        self.value = Color.hsl_to_int(h, s, l, self.opacity)
 
     def distance_to(self, other):
         return Color.distance(self, other)
